@@ -728,3 +728,65 @@ pub fn run_typecheck(args: &[Sexp], value: bool) -> Option<Sexp> {
         }
     }
 }
+
+fn dec_settings(s: &Sexp) -> Option<wirefilter::ParserSettings> {
+    let [h, d, l] = s.as_list()? else { return None };
+    if !h.is_sym("settings") {
+        return None;
+    }
+    let mut st = wirefilter::ParserSettings::default();
+    st.max_nesting_depth = u16::try_from(d.as_u128()?).ok()?;
+    if !l.is_sym("none") {
+        st.wildcard_star_limit = l.as_usize()?;
+    }
+    Some(st)
+}
+
+fn enc_parse_error(e: &wirefilter::ParseError<'_>) -> Sexp {
+    // the fields are private: read them from the derived Debug text
+    let d = format!("{:?}", e);
+    let kind: String = d
+        .strip_prefix("ParseError { kind: ")
+        .unwrap_or("?")
+        .chars()
+        .take_while(|c| c.is_ascii_alphanumeric())
+        .collect();
+    let num = |key: &str| -> i64 {
+        d.rfind(key)
+            .map(|i| d[i + key.len()..].chars().take_while(|c| c.is_ascii_digit()).collect::<String>())
+            .and_then(|x| x.parse().ok())
+            .unwrap_or(-1)
+    };
+    // Display must not panic either (C05)
+    let shown = std::panic::catch_unwind(std::panic::AssertUnwindSafe(|| e.to_string())).is_ok();
+    let mut v = vec![
+        Sexp::sym(&kind),
+        Sexp::int(num("line_number: ")),
+        Sexp::int(num("span_start: ")),
+        Sexp::int(num("span_len: ")),
+    ];
+    if !shown {
+        v.push(Sexp::sym("display-panics"));
+    }
+    Sexp::tagged("err", v)
+}
+
+/// (parse scheme settings #text) / (parse-value ...) -> (ok ast) | (err Kind line col len)
+pub fn run_parse(args: &[Sexp], value: bool) -> Option<Sexp> {
+    let [sch, st, text] = args else { return None };
+    let info = dec_scheme(sch)?;
+    let settings = dec_settings(st)?;
+    let text = String::from_utf8(text.as_bytes()?.to_vec()).ok()?;
+    let parser = info.scheme.parser_with_settings(settings);
+    if value {
+        match parser.parse_value(&text) {
+            Ok(a) => Some(Sexp::tagged("ok", vec![enc_iexpr(&info, a.expression(), "field")])),
+            Err(e) => Some(enc_parse_error(&e)),
+        }
+    } else {
+        match parser.parse(&text) {
+            Ok(a) => Some(Sexp::tagged("ok", vec![enc_lexpr(&info, a.expression())])),
+            Err(e) => Some(enc_parse_error(&e)),
+        }
+    }
+}
